@@ -8,7 +8,7 @@ from __future__ import annotations
 import random
 
 ENV_NAMES = ["HOME", "PATH", "X", "_y1", "WAKKA", "ünï", "µ"]
-PY_SUBEXPRS = ["x", "1 + 2", "f(y)", "None or 'a'", "a.b[0]", "[i for i in z]", "not q"]
+PY_SUBEXPRS = ["x", "1 + 2", "f(y)", "None or 'a'", "a.b[0]", "[i for i in z]", "not q", "'HOME'", '"A" "B"', "'a' + 'b'", "f'{u}_DIR'", "7", "(y)", "v if c else w", "b'k'", "None"]
 WORD_CHARS_SAFE = "abcxyzABC019_-./=:,+%^~*"
 PLAIN_WORDS = [
     "ls", "-l", "--opt=val", "1e5x", "a.b/c", "..", ".", "/usr/bin", "~", "~/x", "*.py", "x=1", "a,b", "a:b", "+x", "%d", "^a", "grep", "wakka", "ñandú", "日本", "µ-law", "--enc=µ", "ﬁle.txt", "Ǆx", "ª1", "-", "--", "2", "3.5", "0x1f", "a+b", "a*b", "@", "a@b", "|", "&", ";", "<", ">", "2>", ">>", "a|b", "a;b", "x<y", "echo", "hello_world", "file.txt", "1>2", "C:", "k=v,w", "-9", "**", "//", "->", "==", "<=", ":=", "a-b-c", "_", "__x__", "e", "E5", "1_000", "07", "a..b", "...",
@@ -217,7 +217,8 @@ def gen_proc_macro(r: random.Random):
     (o, c), m = r.choice(sorted(METHODS.items()))
     cmd = r.choice(["echo", "ls", "timeit", "bash"])
     rest = r.choice(["x  y   z", " a ", "-c 'for i in x'", "import os", "$HOME is   here", "if else for", "a (b c) d", "[x y]", "1 + 2", "", "  ", "ñ ü", "\"q  q\"", "a=b c=d"])
-    return f"{o}{cmd}! {rest}{c}", cmd, rest.strip(), m
+    sep = r.choice(["", " ", " ", "  "]) if not rest.strip() else " "  # also the bare `cmd!` right before the closer
+    return f"{o}{cmd}!{sep}{rest}{c}", cmd, rest.strip(), m
 
 
 XONSH_STMTS = [
